@@ -1,8 +1,8 @@
 (* OffsetsSnap.v — commits and saves of the file input plugin as a labelled transition system at
    mutex-region granularity (plugin/input/file/provider.go: commit; offset.go: save / snapshotJobs).
    One label = one critical section: commit stores an offset under job.mu; save copies the job list under
-   jobsMu.RLock, then for every job, under that job's mu, appends the job's whole offsets map to its
-   buffer, then writes the buffer out (Model/FsCrash.v covers how).  No proofs here. *)
+   jobsMu.RLock, then for every job, under that job's mu, appends the job's whole offsets map to the
+   shared buffer, then writes the buffer out (Model/FsCrash.v covers how).  No proofs here. *)
 From Verif Require Import Base.Sx Base.GoSem.
 
 (* pipeline.SliceMap: stream name -> offset, Get returns 0 for an absent name *)
@@ -31,64 +31,126 @@ Fixpoint tset (t : table) (j : N) (m : smap) : table :=      (* replaces an exis
   | (j', m') :: r => if N.eqb j' j then (j', m) :: r else (j', m') :: tset r j m
   end.
 
+(* Several saves of ONE offsetDB may be in flight (persistence_mode sync: every committing goroutine calls
+   save; the async saver may overlap stop()).  They share o.buf; o.mu serialises them.  A save: takes o.mu,
+   resets o.buf, visits the jobs of its snapshot appending their blocks, then writes o.buf to its own temp
+   file and renames it over the offsets file.  [hold] = does the save keep o.mu until after the rename
+   (Gen/SaveProtocol.v: save_holds_mu_until_rename, read off the Go AST)?  With hold = false the lock is
+   released once the buffer is built, before the write. *)
 Inductive label :=
 | LAddJob (j : N)                       (* a file is discovered: jobs[j] = a job without offsets *)
 | LCommit (j : N) (s : bytes) (v : Z)   (* jobProvider.commit: job.offsets.Set(s, v) under job.mu *)
-| LSaveBegin                            (* offsetDB.save: o.mu.Lock, snapshotJobs under jobsMu.RLock *)
-| LSaveJob                              (* save: lock the next job of the snapshot, append its offsets *)
-| LSaveEnd.                             (* save: the buffer has replaced the offsets file *)
+| LSaveBegin (i : nat)                  (* save i: o.mu.Lock, snapshotJobs under jobsMu.RLock, o.buf = o.buf[:0] *)
+| LSaveJob (i : nat)                    (* save i: lock the next job of its snapshot, append its offsets to o.buf *)
+| LSaveBuilt (i : nat)                  (* save i: every job visited (hold = false: o.mu.Unlock here) *)
+| LSaveWrite (i : nat)                  (* save i: file.Write(o.buf) + Sync — whatever o.buf holds NOW *)
+| LSaveRename (i : nat).                (* save i: its temp file replaces the offsets file (hold = true: o.mu.Unlock) *)
+
+Inductive phase :=
+| Building (rest : list N)              (* jobs of the snapshot still to visit *)
+| Ready                                 (* buffer built, not yet written *)
+| Written (tmp : table).                (* content of the temp file *)
 
 Record cst := {
   live : table;                          (* the committed offsets, now *)
-  pending : option (list N * table);     (* a save in progress: jobs still to visit, buffer so far *)
+  mu : option nat;                       (* which save holds o.mu *)
+  buf : table;                           (* the shared o.buf *)
+  saves : list (nat * phase);            (* saves in flight *)
   file : table;                          (* content of the offsets file *)
+  renamed : bool;                        (* ghost: some save has replaced the offsets file *)
+  built : list (nat * table);            (* ghost: the complete serialisation each save produced *)
   hist : list table                      (* ghost: every earlier value of [live], newest first *)
 }.
-Definition cst0 : cst := {| live := []; pending := None; file := []; hist := [] |}.
+Definition cst0 : cst :=
+  {| live := []; mu := None; buf := []; saves := []; file := []; renamed := false; built := []; hist := [] |}.
 
-Definition step (c : cst) (l : label) : option cst :=
+Fixpoint sv_get (l : list (nat * phase)) (i : nat) : option phase :=
+  match l with
+  | [] => None
+  | (i', p) :: r => if Nat.eqb i' i then Some p else sv_get r i
+  end.
+Fixpoint sv_del (l : list (nat * phase)) (i : nat) : list (nat * phase) :=
+  match l with
+  | [] => []
+  | (i', p) :: r => if Nat.eqb i' i then sv_del r i else (i', p) :: sv_del r i
+  end.
+Definition sv_set (l : list (nat * phase)) (i : nat) (p : phase) : list (nat * phase) := (i, p) :: sv_del l i.
+
+Definition holds_mu (c : cst) (i : nat) : bool :=
+  match mu c with Some k => Nat.eqb k i | None => false end.
+
+Definition step (hold : bool) (c : cst) (l : label) : option cst :=
   match l with
   | LAddJob j =>
       match tget (live c) j with
       | Some _ => None
-      | None => Some {| live := live c ++ [(j, [])]; pending := pending c; file := file c; hist := live c :: hist c |}
+      | None => Some {| live := live c ++ [(j, [])]; mu := mu c; buf := buf c; saves := saves c; file := file c;
+                        renamed := renamed c; built := built c; hist := live c :: hist c |}
       end
   | LCommit j s v =>
       match tget (live c) j with
       | None => Some c                                       (* unknown source: commit returns *)
       | Some m =>
           if sget m s <? v                                   (* otherwise commit panics "offset corruption" *)
-          then Some {| live := tset (live c) j (sset m s v); pending := pending c; file := file c;
-                       hist := live c :: hist c |}
+          then Some {| live := tset (live c) j (sset m s v); mu := mu c; buf := buf c; saves := saves c;
+                       file := file c; renamed := renamed c; built := built c; hist := live c :: hist c |}
           else None
       end
-  | LSaveBegin =>
-      match pending c with
-      | Some _ => None                                       (* o.mu is held by the running save *)
-      | None => Some {| live := live c; pending := Some (map fst (live c), []); file := file c; hist := hist c |}
+  | LSaveBegin i =>
+      match mu c, sv_get (saves c) i with
+      | None, None =>
+          Some {| live := live c; mu := Some i; buf := []; saves := sv_set (saves c) i (Building (map fst (live c)));
+                  file := file c; renamed := renamed c; built := built c; hist := hist c |}
+      | _, _ => None                                         (* o.mu is held by another save *)
       end
-  | LSaveJob =>
-      match pending c with
-      | Some (j :: rest, buf) =>
-          let buf' := match tget (live c) j with
-                      | Some ((_ :: _) as m) => buf ++ [(j, m)]
-                      | _ => buf                             (* len(job.offsets) == 0: skipped *)
-                      end in
-          Some {| live := live c; pending := Some (rest, buf'); file := file c; hist := hist c |}
+  | LSaveJob i =>
+      match sv_get (saves c) i with
+      | Some (Building (j :: rest)) =>
+          if holds_mu c i then
+            let buf' := match tget (live c) j with
+                        | Some ((_ :: _) as m) => buf c ++ [(j, m)]
+                        | _ => buf c                         (* len(job.offsets) == 0: skipped *)
+                        end in
+            Some {| live := live c; mu := mu c; buf := buf'; saves := sv_set (saves c) i (Building rest);
+                    file := file c; renamed := renamed c; built := built c; hist := hist c |}
+          else None
       | _ => None
       end
-  | LSaveEnd =>
-      match pending c with
-      | Some ([], buf) => Some {| live := live c; pending := None; file := buf; hist := hist c |}
+  | LSaveBuilt i =>
+      match sv_get (saves c) i with
+      | Some (Building []) =>
+          if holds_mu c i then
+            Some {| live := live c; mu := if hold then mu c else None; buf := buf c;
+                    saves := sv_set (saves c) i Ready; file := file c; renamed := renamed c;
+                    built := (i, buf c) :: built c; hist := hist c |}
+          else None
+      | _ => None
+      end
+  | LSaveWrite i =>
+      match sv_get (saves c) i with
+      | Some Ready =>
+          Some {| live := live c; mu := mu c; buf := buf c; saves := sv_set (saves c) i (Written (buf c));
+                  file := file c; renamed := renamed c; built := built c; hist := hist c |}
+      | _ => None
+      end
+  | LSaveRename i =>
+      match sv_get (saves c) i with
+      | Some (Written tmp) =>
+          Some {| live := live c; mu := if hold then None else mu c; buf := buf c; saves := sv_del (saves c) i;
+                  file := tmp; renamed := true; built := built c; hist := hist c |}
       | _ => None
       end
   end.
 
-Fixpoint run_lts (c : cst) (ls : list label) : option cst :=
+Fixpoint run_lts (hold : bool) (c : cst) (ls : list label) : option cst :=
   match ls with
   | [] => Some c
-  | l :: r => match step c l with Some c' => run_lts c' r | None => None end
+  | l :: r => match step hold c l with Some c' => run_lts hold c' r | None => None end
   end.
+
+(* the offsets file is one COMPLETE snapshot: untouched, or exactly what one save serialised *)
+Definition file_complete (c : cst) : Prop :=
+  if renamed c then exists i, In (i, file c) (built c) else file c = [].
 
 (* ---- executable predicate used on runs of the real commit / save ---------------------------------
    one committer applies [script] (stream, offset) to a job in order; every state the job's map goes
